@@ -8,12 +8,13 @@ use crate::rng::Rng;
 use crate::solver::{Answer, Proc, Which};
 use egg::{ENodeOrVar, Id, Language, PatternAst, RecExpr, Var};
 use patronus::expr::{Context, ExprRef, TypeCheck, WidthInt};
-use patronus_egraphs::{Arith, Sign, create_rewrites, from_arith, to_arith};
+use patronus_egraphs::{Arith, Sign, WidthConstantFold, create_egg_rewrites, create_rewrites, from_arith, is_bin_op, to_arith};
 use rayon::prelude::*;
 use serde_json::json;
 
 pub const SITE_RULE: &str = "patronus_egraphs::create_rewrites (rule instance lowered with from_arith)";
 pub const SITE_CONV: &str = "patronus_egraphs::to_arith / from_arith";
+pub const SITE_SAT: &str = "patronus_egraphs::create_egg_rewrites applied by egg (conditions, WidthConstantFold) + from_arith";
 
 fn vars(p: &PatternAst<Arith>) -> Vec<Var> {
     let mut v: Vec<Var> = p.as_ref().iter().filter_map(|e| if let ENodeOrVar::Var(v) = e { Some(*v) } else { None }).collect();
@@ -453,6 +454,206 @@ fn conversion_part(rep: &mut Report, tier: Tier, seed: u64) {
     }
 }
 
+// ---------------------------------------------------------------------------------------------
+// the shipped rule set as egg applies it
+
+/// expressions on which the shipped rules fire (left-hand sides built as patronus expressions), or a random
+/// convertible expression
+fn gen_for_saturation(ctx: &mut Context, rng: &mut Rng) -> ExprRef {
+    let sym = |ctx: &mut Context, rng: &mut Rng, n: &str, maxw: u32| -> ExprRef {
+        let w = rng.range(1, maxw);
+        ctx.bv_symbol(&format!("{n}{w}"), w)
+    };
+    let ext = |ctx: &mut Context, e: ExprRef, to: u32, signed: bool| -> ExprRef {
+        let cur = e.get_bv_type(ctx).unwrap();
+        if cur >= to {
+            if cur == to { e } else { ctx.slice(e, to - 1, 0) }
+        } else if signed {
+            ctx.sign_extend(e, to - cur)
+        } else {
+            ctx.zero_extend(e, to - cur)
+        }
+    };
+    match rng.below(6) {
+        0 => {
+            // (a << b) << c
+            let (a, b, c) = (sym(ctx, rng, "a", 4), sym(ctx, rng, "b", 3), sym(ctx, rng, "c", 3));
+            let (wa, wb, wc) = (a.get_bv_type(ctx).unwrap(), b.get_bv_type(ctx).unwrap(), c.get_bv_type(ctx).unwrap());
+            let wab = rng.range(2, 8).max(wa).max(wb);
+            // the rule needs wab >= wo; expressions coming from patronus have wo >= wab
+            let wo = (if rng.chance(2, 3) { wab } else { wab + rng.range(1, 2) }).max(wc);
+            let sa = rng.chance(1, 2);
+            let (ae, be) = (ext(ctx, a, wab, sa), ext(ctx, b, wab, false));
+            let inner = ctx.shift_left(ae, be);
+            let ie = ext(ctx, inner, wo, sa);
+            let ce = ext(ctx, c, wo, false);
+            ctx.shift_left(ie, ce)
+        }
+        1 => {
+            // a << (b + c)
+            let (a, b, c) = (sym(ctx, rng, "a", 4), sym(ctx, rng, "b", 3), sym(ctx, rng, "c", 3));
+            let wbc = (b.get_bv_type(ctx).unwrap().max(c.get_bv_type(ctx).unwrap()) + rng.range(0, 2)).max(1);
+            let (be, ce) = (ext(ctx, b, wbc, false), ext(ctx, c, wbc, false));
+            let sum = ctx.add(be, ce);
+            let wo = rng.range(1, 8).max(wbc).max(a.get_bv_type(ctx).unwrap());
+            let sa = rng.chance(1, 2);
+            let (ae, se) = (ext(ctx, a, wo, sa), ext(ctx, sum, wo, false));
+            ctx.shift_left(ae, se)
+        }
+        2 => {
+            // (a * b) << c
+            let (a, b, c) = (sym(ctx, rng, "a", 3), sym(ctx, rng, "b", 3), sym(ctx, rng, "c", 2));
+            let (wa, wb) = (a.get_bv_type(ctx).unwrap(), b.get_bv_type(ctx).unwrap());
+            let wab = (wa + wb + rng.range(0, 1)).saturating_sub(rng.below(2) as u32).max(wa.max(wb));
+            let (ae, be) = (ext(ctx, a, wab, false), ext(ctx, b, wab, false));
+            let prod = ctx.mul(ae, be);
+            let wc = c.get_bv_type(ctx).unwrap();
+            let wo = (wab + (1u32 << wc) - 1 + rng.range(0, 1)).saturating_sub(rng.below(3) as u32).max(wab).max(wc);
+            let (pe, ce) = (ext(ctx, prod, wo, false), ext(ctx, c, wo, false));
+            ctx.shift_left(pe, ce)
+        }
+        3 => {
+            // a + b, a * b at mixed widths and signs
+            let (a, b) = (sym(ctx, rng, "a", 5), sym(ctx, rng, "b", 5));
+            let wo = rng.range(1, 8).max(a.get_bv_type(ctx).unwrap()).max(b.get_bv_type(ctx).unwrap());
+            let (ae, be) = (ext(ctx, a, wo, rng.chance(1, 2)), ext(ctx, b, wo, rng.chance(1, 2)));
+            if rng.chance(1, 2) { ctx.add(ae, be) } else { ctx.mul(ae, be) }
+        }
+        _ => {
+            let w = *rng.pick(&[2u32, 3, 4, 5, 6, 8]);
+            let d = rng.range(1, 3) as usize;
+            gen_convertible(ctx, rng, d, w)
+        }
+    }
+}
+
+fn saturation_part(rep: &mut Report, tier: Tier, seed: u64) {
+    let n = tier.pick(800u64, 8000u64);
+    let idx: Vec<u64> = (0..n).collect();
+    let parts: Vec<Report> = idx
+        .par_chunks(100)
+        .map(|chunk| {
+            let mut r = Report::new("C19", tier, seed, "translation_validation");
+            let mut fast = Proc::new(Which::Z3New, 5000);
+            let mut hard = Portfolio::new(tier.pick(20_000, 60_000));
+            // ONE rule set per worker, re-used for every expression of the chunk (as a tool would)
+            let rewrites = match crate::panics::guarded(create_egg_rewrites) {
+                Ok(x) => x,
+                Err((loc, msg)) => {
+                    r.violation(Role::new(SITE_SAT, "create_egg_rewrites", &format!("panic@{loc}")), format!("create_egg_rewrites panicked: {msg}"), json!({}));
+                    return r;
+                }
+            };
+            for &i in chunk {
+                let mut ctx = Context::default();
+                let mut rng = Rng::new(seed, "C19-sat", i);
+                let e = gen_for_saturation(&mut ctx, &mut rng);
+                if matches!(crate::refsmt::decompose(&ctx[e]).op, crate::refsmt::Op::BVSymbol | crate::refsmt::Op::ZeroExt | crate::refsmt::Op::SignExt | crate::refsmt::Op::Slice) {
+                    continue;
+                }
+                r.count("programs", 1);
+                let shown = crate::c01::show(&ctx, e);
+                // saturate with the shipped rules
+                let sat = crate::panics::guarded(|| {
+                    let ar = to_arith(&ctx, e);
+                    let runner = egg::Runner::<Arith, WidthConstantFold>::default().with_expr(&ar).with_iter_limit(4).with_node_limit(4000).with_time_limit(std::time::Duration::from_secs(5)).run(&rewrites);
+                    let egraph = runner.egraph;
+                    let root = egraph.find(runner.roots[0]);
+                    // per class: the smallest term, and every bin-op node over the smallest terms of its children
+                    let ext = egg::Extractor::new(&egraph, egg::AstSize);
+                    let mut out: Vec<(bool, Vec<RecExpr<Arith>>)> = vec![];
+                    for class in egraph.classes() {
+                        let mut alts: Vec<RecExpr<Arith>> = vec![];
+                        for node in class.nodes.iter() {
+                            if !is_bin_op(node) {
+                                continue;
+                            }
+                            let t = node.join_recexprs(|id| ext.find_best(id).1);
+                            alts.push(t);
+                        }
+                        if !alts.is_empty() {
+                            out.push((egraph.find(class.id) == root, alts));
+                        }
+                    }
+                    out
+                });
+                let classes = match sat {
+                    Ok(c) => c,
+                    Err((loc, msg)) => {
+                        r.count("obligations", 1);
+                        r.violation(Role::new(SITE_SAT, "saturate", &format!("panic@{loc}")), format!("saturating {shown} with the shipped rules panicked: {msg}"), json!({"sat_index": i}));
+                        continue;
+                    }
+                };
+                let mut jobs: Vec<(ExprRef, ExprRef, String)> = vec![];
+                for (is_root, alts) in classes.iter() {
+                    let mut lowered: Vec<(ExprRef, String)> = vec![];
+                    for t in alts.iter() {
+                        match crate::panics::guarded(|| from_arith(&mut ctx, t)) {
+                            Ok(x) => lowered.push((x, t.to_string())),
+                            Err((loc, msg)) => {
+                                r.count("obligations", 1);
+                                r.violation(Role::new(SITE_SAT, "from_arith", &format!("panic@{loc}")), format!("from_arith panicked on e-class member {t} (from {shown}): {msg}"), json!({"sat_index": i}));
+                            }
+                        }
+                    }
+                    if lowered.is_empty() {
+                        continue;
+                    }
+                    // reference of the class: the original expression for the root class, else the first member
+                    let (reference, ref_txt) = if *is_root { (e, shown.clone()) } else { lowered[0].clone() };
+                    for (x, t) in lowered.iter() {
+                        if *x == reference {
+                            continue;
+                        }
+                        r.count("obligations", 1);
+                        if x.get_type(&ctx) != reference.get_type(&ctx) {
+                            r.violation(Role::new(SITE_SAT, "e-class", "width"), format!("after saturating {shown}: e-class holds terms of different widths: {t} and {ref_txt}"), json!({"sat_index": i}));
+                            continue;
+                        }
+                        jobs.push((reference, *x, t.clone()));
+                    }
+                }
+                r.count("eclass_members", jobs.len() as u64);
+                let bodies: Vec<String> = jobs.iter().map(|(a, b, _)| refsmt::miter(&ctx, *a, *b).map(|m| m.text).unwrap_or_else(|_| "(assert false)".into())).collect();
+                let answers = fast.check_batch(&bodies);
+                for (k, (a, b, t)) in jobs.iter().enumerate() {
+                    if answers[k] == Answer::Unsat {
+                        r.count("discharged", 1);
+                        continue;
+                    }
+                    let (v, smt) = hard.check_equiv(&ctx, *a, *b);
+                    match v {
+                        Verdict::Equal => r.count("discharged", 1),
+                        Verdict::Differ { model, va, vb } => {
+                            r.count("disagreements_checked", 1);
+                            let root = t.split_whitespace().next().unwrap_or("?").trim_start_matches('(').to_string();
+                            r.violation(
+                                Role::new(SITE_SAT, "e-class", &format!("value;member={root}")),
+                                format!("after saturating {shown} with the shipped rules an e-class holds two terms that differ: {} vs member {t} = {}: {} vs {}", crate::c01::show(&ctx, *a), crate::c01::show(&ctx, *b), va.show(), vb.show()),
+                                json!({"sat_index": i, "model": miter::model_json(&ctx, &model), "smt2": smt}),
+                            );
+                        }
+                        Verdict::Unconfirmed { detail, .. } => r.undecided.push(format!("ENCODING-ERROR: {detail}")),
+                        Verdict::Inconclusive(why) => {
+                            r.count("undecided_instances_listed_not_counted", 1);
+                            r.uncount("obligations", 1);
+                            if r.inconclusive.len() < 30 {
+                                r.inconclusive.push(json!({"sat_index": i, "why": why}));
+                            }
+                        }
+                        Verdict::IllTyped(m) => r.violation(Role::new(SITE_SAT, "e-class", "ill-typed"), format!("e-class member {t} lowers to an ill-typed expression: {m}"), json!({"sat_index": i})),
+                    }
+                }
+            }
+            r
+        })
+        .collect();
+    for p in parts {
+        rep.merge(p);
+    }
+}
+
 pub fn run(tier: Tier, seed: u64, _replay: Option<serde_json::Value>) -> i32 {
     let mut rep = Report::new("C19", tier, seed, "translation_validation");
     if _replay.is_some() {
@@ -460,10 +661,15 @@ pub fn run(tier: Tier, seed: u64, _replay: Option<serde_json::Value>) -> i32 {
     }
     rules_part(&mut rep, tier, seed);
     conversion_part(&mut rep, tier, seed);
+    saturation_part(&mut rep, tier, seed);
+    // vacuity guard: the shipped rules must actually have produced e-class members to judge
+    if rep.get("eclass_members") < 100 {
+        rep.undecided.push(format!("saturation part is vacuous: only {} e-class members were produced by the shipped rules", rep.get("eclass_members")));
+    }
     rep.extra.insert("bounds".into(), json!({"width_parameters_exhaustive": format!("1..={}", tier.pick(4, 5)), "signs": "both per sign parameter", "sampled": "one width parameter in {8,16,31,32,33}, the others 1..6",
         "conversion_expressions": tier.pick(3000, 40000), "conversion_fragment": "add sub mul shl lshr ashr over zero/sign-extended symbols, depth <= 3, widths <= 16"}));
-    rep.extra.insert("functions_encoded".into(), json!(["create_rewrites", "ArithRewrite::patterns", "ArithRewrite::eval_condition", "from_arith", "to_arith", "eval_width_max_plus_1", "eval_width_left_shift"]));
-    rep.extra.insert("outside_claim".into(), json!(["width parameters above 5 except the sampled ones", "instances whose multiplication miter no solver decides (listed)", "the egg saturation engine itself"]));
+    rep.extra.insert("functions_encoded".into(), json!(["create_rewrites", "ArithRewrite::patterns", "ArithRewrite::eval_condition", "from_arith", "to_arith", "eval_width_max_plus_1", "eval_width_left_shift", "create_egg_rewrites / ArithRewrite::to_egg (conditions evaluated by egg against the e-graph)", "WidthConstantFold"]));
+    rep.extra.insert("outside_claim".into(), json!(["width parameters above 5 except the sampled ones", "instances whose multiplication miter no solver decides (listed)", "the egg saturation engine itself (its e-classes are judged: every bin-op member over the smallest child terms must equal the class reference; 4 iterations, 4000 nodes)"]));
     rep.assumptions = vec!["RefSmt is the SMT-LIB reading of Expr".into(), "the Arith language means: operands extended by their sign to max(wa, wb, wo), operator applied, low wo bits (independent reading used to judge from_arith)".into()];
     rep.finish()
 }
